@@ -58,6 +58,7 @@ type Col struct {
 type Block struct {
 	Seq      int
 	Conn     int
+	Node     string // the configured node this connection belongs to ("" in a single-node run)
 	Table    string
 	SQL      string
 	Cols     []Col
@@ -125,7 +126,11 @@ func (db *DB) fault(op string, n int) (Fault, bool) {
 }
 
 // Factory returns the connection factory handed to the writer.
-func (db *DB) Factory() ch_wrapper.IChClientFactory {
+func (db *DB) Factory() ch_wrapper.IChClientFactory { return db.FactoryFor("") }
+
+// FactoryFor is the factory of one configured node: the nodes are independent servers, a row inserted through a
+// connection of one node exists on that node only.
+func (db *DB) FactoryFor(node string) ch_wrapper.IChClientFactory {
 	return func() (ch_wrapper.IChClient, error) {
 		db.mu.Lock()
 		n := db.nConnect
@@ -139,7 +144,7 @@ func (db *DB) Factory() ch_wrapper.IChClientFactory {
 		}
 		db.conns++
 		db.Opened++
-		c := &Client{db: db, id: db.conns}
+		c := &Client{db: db, id: db.conns, node: node}
 		db.mu.Unlock()
 		return c, nil
 	}
@@ -148,6 +153,7 @@ func (db *DB) Factory() ch_wrapper.IChClientFactory {
 // Client is one connection.
 type Client struct {
 	db     *DB
+	node   string
 	id     int
 	closed bool
 }
@@ -240,7 +246,7 @@ func sleepCtx(ctx context.Context, d time.Duration) error {
 
 func (c *Client) Do(ctx context.Context, q ch.Query) error {
 	db := c.db
-	b := &Block{Conn: c.id, SQL: q.Body, StartT: time.Now()}
+	b := &Block{Conn: c.id, Node: c.node, SQL: q.Body, StartT: time.Now()}
 	if m := reTable.FindStringSubmatch(q.Body); m != nil {
 		b.Table = m[1]
 	}
